@@ -165,11 +165,62 @@ CORE_TOKENS = ["a", "pattern", "+", ";", "{", "}", '"b"', "'b'", '"+"', "'+'", '
 # RFC 7950 separates tokens by space, tab, carriage return and line feed only.  Everything unicode.IsSpace adds (VT, FF,
 # NEL, NBSP, ...) and a few look-alike neighbours that IsSpace does not include are ordinary token characters.
 UNI_SPACES = [0x0B, 0x0C, 0x85, 0xA0, 0x1680] + list(range(0x2000, 0x200B)) + [0x2028, 0x2029, 0x202F, 0x205F, 0x3000]
-UNI_NEIGHBOURS = [0x1C, 0x1D, 0x1E, 0x1F, 0x200B, 0xFEFF, 0x180E, 0xAD, 0x2060, 0x00]
+UNI_NEIGHBOURS = [0x1C, 0x1D, 0x1E, 0x1F, 0x200B, 0xFEFF, 0x180E, 0xAD, 0x2060, 0x00,
+                  # the replacement character itself, validly encoded (EF BF BD), its neighbours, the ends of the planes
+                  0xFFFD, 0xFFFC, 0xFFFE, 0xFFFF, 0xD7FF, 0xE000, 0x10000, 0x1F600, 0x10FFFF]
 UNI_TEMPLATES = ["W", "aWb;", "k xWy;", "kWv;", "k vW;", "k v;W", "k v;\nW\n", "Wk v;", "k v;W\n", "W;", "k W;", "k W v;", "kW{Wl m;W}", "k {WlWm;}W",
                  'k "xWy";', "k 'xWy';", 'k "x W\n Wy";', 'k "xW\nWy";', "k /*W*/ v;", "k/*W*/v;", "k v; //W\nz w;", "k v; //\nWz w;", "/*W", "//W",
                  'k "a"W+W"b";', 'k "a" +W"b";', 'pattern "\\W";', 'k "\\W";', "k 'a'W;", "W W", "k\tW\tv;", "k\r\nW\r\nv;", "a;Wb;", "a{W}", "k W{ l; }",
                  "k v;\nW", "k v; W }", '"W" v;']
+
+
+# genuinely invalid UTF-8: lone continuation / start bytes, truncated, overlong, surrogate, beyond U+10FFFF.  lex.go decodes
+# each offending byte as U+FFFD of width 1 (utf8.DecodeRuneInString); so does the harness for the model.
+INVALID_BYTES = [b"\x80", b"\xff", b"\xc3", b"\xe2\x82", b"\xf0\x9f\x98", b"\xc0\xaf", b"\xe0\x80\xaf", b"\xed\xa0\x80",
+                 b"\xf4\x90\x80\x80", b"\xfe\xfe\xff\xff", b"\xc3\x28"]
+
+
+def go_decode(b):
+    """bytes -> code points exactly as a Go `for range` / utf8.DecodeRuneInString loop does"""
+    out, i, n = [], 0, len(b)
+    cont = lambda j: j < n and (b[j] & 0xC0) == 0x80
+    while i < n:
+        c = b[i]
+        if c < 0x80:
+            out.append(c); i += 1
+        elif 0xC2 <= c <= 0xDF and cont(i + 1):
+            out.append(((c & 0x1F) << 6) | (b[i + 1] & 0x3F)); i += 2
+        elif 0xE0 <= c <= 0xEF and cont(i + 1) and cont(i + 2):
+            r = ((c & 0x0F) << 12) | ((b[i + 1] & 0x3F) << 6) | (b[i + 2] & 0x3F)
+            if r < 0x800 or 0xD800 <= r <= 0xDFFF:
+                out.append(0xFFFD); i += 1
+            else:
+                out.append(r); i += 3
+        elif 0xF0 <= c <= 0xF4 and cont(i + 1) and cont(i + 2) and cont(i + 3):
+            r = ((c & 0x07) << 18) | ((b[i + 1] & 0x3F) << 12) | ((b[i + 2] & 0x3F) << 6) | (b[i + 3] & 0x3F)
+            if r < 0x10000 or r > 0x10FFFF:
+                out.append(0xFFFD); i += 1
+            else:
+                out.append(r); i += 4
+        else:
+            out.append(0xFFFD); i += 1
+    return out
+
+
+def canon_runes(obs):
+    """an observation with every hex field (keyword, argument) re-encoded from its Go-style decoding: yang.Parse keeps the raw
+    bytes of unquoted and single-quoted text, the rune-level model has U+FFFD there"""
+    def h2(h):
+        return h if h == "-" else "".join(chr(r) for r in go_decode(bytes.fromhex(h))).encode("utf-8").hex()
+    return re.sub(r"\(([0-9a-f\-]+),([01]),([0-9a-f\-]+)", lambda m: "(%s,%s,%s" % (h2(m.group(1)), m.group(2), h2(m.group(3))), obs)
+
+
+def invalid_utf8_texts():
+    out = []
+    for bad in INVALID_BYTES:
+        for t in UNI_TEMPLATES:
+            out.append(t.encode("utf-8").replace(b"W", bad))
+    return out
 
 
 def unicode_space_texts(tier="quick"):
@@ -675,6 +726,16 @@ def run(res, tier, seed, proof):
             nerrpos += sum(1 for p in ps if ":" in p)
             key = "%d-errors%s" % (len(ps), "+toomany" if "toomany" in ps else "")
             errclasses[key] = errclasses.get(key, 0) + 1
+    # invalid UTF-8: positions count one column per offending byte; texts compared after Go-style re-decoding of the hex fields
+    ib = ["parse " + b.hex() for b in invalid_utf8_texts()]
+    gi, mi = lib.run_go(ib), lib.run_ml(ib)
+    ibad = 0
+    for c, g, m in zip(ib, gi, mi):
+        if canon_runes(g) != canon_runes(m):
+            ibad += 1
+            if ibad <= 3:
+                res.violation("yang.Parse and the model disagree on a text with invalid UTF-8: %s impl=%s model=%s" % (c[:200], g[:200], m[:200]),
+                              dict(kind="correspondence", case=c, impl=g, model=m))
     sem = run_semantic(res, tier, random.Random(seed + 1))
     longl = run_long_lines(res, tier)
     front = c16front.run_leg(res, tier, random.Random(seed + 2))
@@ -694,7 +755,7 @@ def run(res, tier, seed, proof):
                     "missing import / include; one or several files); every file:line:col anywhere in a Modules.Parse or Process error must be "
                     "a statement start of a loaded file, of the right kind for the message, and for the classes the property lists exactly "
                     "the marked faulty statement" % (4 if tier == "quick" else 5, len(FAULTS), len(SEM_CASES)),
-               mismatches=mism, model_out_of_fuel=oof, builder_errors_from_text=front, semantic_error_positions=sem, long_lines=longl, statement_positions_compared=npos, error_positions_compared=nerrpos,
+               mismatches=mism, model_out_of_fuel=oof, builder_errors_from_text=front, semantic_error_positions=sem, long_lines=longl, invalid_utf8=dict(cases=len(ib), mismatches=ibad), statement_positions_compared=npos, error_positions_compared=nerrpos,
                distribution=dict(kind_by_outcome=dist, error_lists=errclasses),
                samples=[cases[i] for i in sample_idx], sample_observations=[go[i] for i in sample_idx])
     return cov, ["UTF-8 decoding (utf8.DecodeRuneInString; invalid byte => U+FFFD of width 1) is done by the harness as Go does it and "
